@@ -121,6 +121,17 @@ Proof.
   intros c fuel t bs H Ht. split; [apply sig_copy_nest_static; exact Ht|apply sig_copy_static_linear; assumption].
 Qed.
 Print Assumptions C07_sig_copy_static.
+(* CLOSED bound, dynamic values included: the nesting a reader reaches is at most the nesting of its type
+   plus twice the input (every dynamic value pays 4 bytes and its signature text, and a signature text
+   yields a type at most as deep as it has opening brackets: C07_parse_depth_type), so the reader copies
+   at most (rdepth t + 2 |input|) * |input| bytes: quadratic, and by the refutation below not better *)
+Theorem C07_sig_copy_quadratic : forall c fuel t bs, string_reader_drops_err c = false ->
+  nesting (fst (sig_copy parse_opt c fuel t bs)) <= rdepth t + 2 * len bs /\
+  copied (fst (sig_copy parse_opt c fuel t bs)) <= (rdepth t + 2 * len bs) * len bs.
+Proof.
+  intros c fuel t bs H. split; [apply sig_copy_nl|apply sig_copy_quadratic]; try exact H; exact parse_opt_rdepth.
+Qed.
+Print Assumptions C07_sig_copy_quadratic.
 (* REFUTED: no bound linear in the input alone.  n dynamic values nested in one another (n times the
    string "m", then "v": 5 (n + 1) bytes) are accepted and returned whole by the reader of type "m", which
    copies 5 + 10 + ... + 5 (n + 1) = 5 (n + 1) (n + 2) / 2 bytes: finding sig_reader_depth_quadratic *)
@@ -149,6 +160,10 @@ Theorem C07_parse_depth_threshold : forall s d,
   ((parse_depth s <= d)%nat -> fst (decl_m d s) = fst (decl_m (parse_depth s) s)).
 Proof. intros s d. split; [apply parse_depth_spec|apply decl_m_stable]. Qed.
 Print Assumptions C07_parse_depth_threshold.
+(* the type Parse returns is no deeper than the parse that made it (so a deep type needs a deep parse) *)
+Theorem C07_parse_depth_type : forall s t, parse_m s = POk t -> (ty_depth t <= parse_depth s)%nat.
+Proof. exact parse_depth_ty. Qed.
+Print Assumptions C07_parse_depth_type.
 (* TRUE bound: at most one entry per opening bracket of the text, and one more; hence at most |s| + 1 *)
 Theorem C07_parse_depth_bound : forall s,
   (parse_depth s <= open_count s + 1)%nat /\ (parse_depth s <= String.length s + 1)%nat.
